@@ -682,3 +682,571 @@ Proof.
       * apply (i_gprev x1 Hx1 T s Hs1 sr0 a0 Hold).
     + apply (i_gprev x1 Hx1 T s Hs1 sr0 a0 Hin).
 Qed.
+
+(* ---------- pending groups ---------- *)
+Lemma pend_in r T t : In t (pend r T) <-> exists c, In (T, c) (r_pending r) /\ In t (c_tasks c).
+Proof.
+  unfold pend. rewrite in_flat_map. split.
+  - intros ([T' c] & Hin & Ht). cbn [fst snd] in Ht. destruct (Nat.eqb_spec T' T) as [->|Hne]; [|destruct Ht]. exists c. auto.
+  - intros (c & Hin & Ht). exists (T, c). split; [exact Hin|]. cbn [fst snd]. rewrite Nat.eqb_refl. exact Ht.
+Qed.
+
+Lemma nodup_key_unique {B} (ps : list (nat * B)) T c c' : NoDup (map fst ps) -> In (T, c) ps -> In (T, c') ps -> c = c'.
+Proof.
+  induction ps as [|[k b] ps IH]; intros Hnd H1 H2; [destruct H1|]. cbn [map fst] in Hnd. inversion Hnd as [|? ? Hnin Hnd']; subst.
+  destruct H1 as [E1|H1], H2 as [E2|H2].
+  - congruence.
+  - inversion E1; subst. exfalso. apply Hnin. apply in_map_iff. exists (T, c'). auto.
+  - inversion E2; subst. exfalso. apply Hnin. apply in_map_iff. exists (T, c). auto.
+  - apply IH; assumption.
+Qed.
+
+Lemma take_group_spec T : forall ps c rest,
+  take_group T ps = Some (c, rest) ->
+  In (T, c) ps /\ (forall p, In p rest -> In p ps) /\ (forall T' c', In (T', c') ps -> T' <> T -> In (T', c') rest) /\
+  (NoDup (map fst ps) -> NoDup (map fst rest) /\ ~ In T (map fst rest)).
+Proof.
+  induction ps as [|[T' c0] ps IH]; intros c rest H; cbn [take_group] in H; [discriminate|].
+  destruct (Nat.eqb_spec T T') as [<-|Hne].
+  - inversion H; subst. split; [left; reflexivity|]. split; [intros p Hp; right; exact Hp|]. split.
+    + intros T' c' [E|Hin] Hn; [inversion E; subst; contradiction|exact Hin].
+    + intros Hnd. cbn [map fst] in Hnd. inversion Hnd; subst. split; assumption.
+  - destruct (take_group T ps) as [[c1 rest1]|] eqn:E; [|discriminate]. inversion H; subst.
+    destruct (IH _ _ eq_refl) as (H1 & H2 & H3 & H4). split; [right; exact H1|]. split.
+    + intros p [E1|Hp]; [left; exact E1|right; apply H2; exact Hp].
+    + split.
+      * intros T1 c1' [E1|Hin] Hn; [left; exact E1|right; apply H3; assumption].
+      * intros Hnd. cbn [map fst] in Hnd |- *. inversion Hnd as [|? ? Hnin Hnd']; subst. destruct (H4 Hnd') as [H5 H6]. split.
+        -- constructor; [|exact H5]. intros Hin. apply Hnin. apply in_map_iff in Hin. destruct Hin as ([k b] & Ek & Hin). cbn in Ek. subst k.
+           apply in_map_iff. exists (T', b). split; [reflexivity|apply H2; exact Hin].
+        -- intros [E1|Hin]; [congruence|contradiction].
+Qed.
+
+Lemma incr_weaken ts : forall lo lo', lo' <= lo -> incr lo ts -> incr lo' ts.
+Proof. destruct ts as [|t ts]; intros lo lo' Hle H; [exact I|]. cbn [incr] in *. destruct H as [H1 H2]. split; [lia|exact H2]. Qed.
+
+Lemma incr_lower ts : forall lo t, incr lo ts -> In t ts -> lo <= t_id t.
+Proof.
+  induction ts as [|t0 ts IH]; intros lo t H Hin; [destruct Hin|]. cbn [incr] in H. destruct H as [H1 H2].
+  destruct Hin as [->|Hin]; [exact H1|]. specialize (IH _ _ H2 Hin). lia.
+Qed.
+
+(* in an increasing list, an element with a smaller id comes earlier *)
+Lemma incr_before ts : forall lo a t' b t, incr lo ts -> ts = a ++ t' :: b -> In t ts -> t_id t < t_id t' -> In t a.
+Proof.
+  induction ts as [|t0 ts IH]; intros lo a t' b t Hi Hs Hin Hlt; [destruct Hin|].
+  cbn [incr] in Hi. destruct Hi as [H1 H2]. destruct a as [|a0 a]; cbn [app] in Hs; inversion Hs; subst.
+  - exfalso. destruct Hin as [->|Hin]; [lia|]. pose proof (incr_lower _ _ _ H2 Hin). lia.
+  - destruct Hin as [->|Hin]; [left; reflexivity|]. right. apply (IH _ a t' b t H2 eq_refl Hin Hlt).
+Qed.
+
+Lemma app_split_cases {A} (l1 : list A) e l2 : forall X Y,
+  l1 ++ e :: l2 = X ++ Y ->
+  (exists l2', X = l1 ++ e :: l2' /\ l2 = l2' ++ Y) \/ (exists l1', l1 = X ++ l1' /\ Y = l1' ++ e :: l2).
+Proof.
+  induction l1 as [|a l1 IH]; intros X Y H.
+  - destruct X as [|x X]; cbn [app] in H.
+    + right. exists []. split; [reflexivity|symmetry; exact H].
+    + inversion H; subst. left. exists X. split; reflexivity.
+  - destruct X as [|x X]; cbn [app] in H.
+    + right. exists (a :: l1). split; [reflexivity|symmetry; exact H].
+    + inversion H; subst. destruct (IH X Y H2) as [(l2' & E1 & E2)|(l1' & E1 & E2)].
+      * left. exists l2'. split; [rewrite E1; reflexivity|exact E2].
+      * right. exists l1'. split; [rewrite E1; reflexivity|exact E2].
+Qed.
+
+Lemma chan_entries_tasks c : c_tasks c <> [] -> chan_entries c = map (te (c_src c)) (c_tasks c).
+Proof. unfold chan_entries. destruct (c_tasks c); [contradiction|reflexivity]. Qed.
+
+Lemma L_enqueue s c : L (enqueue c s) = L s ++ chan_entries c.
+Proof. unfold L, enqueue. cbn. rewrite flat_map_app. cbn [flat_map]. rewrite app_nil_r, app_assoc. reflexivity. Qed.
+
+Lemma inv_handoff x sr T : Inv x -> Inv (fst (apply_act true x (AHandoff sr T))).
+Proof.
+  intros HI. cbn [apply_act]. destruct (nth_error (recvs x) sr) as [r|] eqn:Hr; [|exact HI].
+  destruct (nth_error (sends x) T) as [s|] eqn:Hs; [|exact HI].
+  destruct (s_conn s && has_room s) eqn:Hcr; [|exact HI].
+  destruct (take_group T (r_pending r)) as [[c rest]|] eqn:Htg; [|exact HI]. cbn [fst].
+  apply andb_prop in Hcr. destruct Hcr as [Hc _].
+  destruct (take_group_spec T _ _ _ Htg) as (Hin & Hsub & Hoth & Hnd).
+  pose proof (i_pend x HI sr r Hr) as [Pnd Pall]. destruct (Hnd Pnd) as [Pnd' PnT].
+  destruct (Pall T c Hin) as (Csrc & Cne & (lo & Cincr) & Call).
+  set (r' := r_set_pending rest r). set (s' := enqueue c s).
+  set (x' := {| recvs := upd (recvs x) sr (r_set_pending rest); sends := upd (sends x) T (enqueue c) |}).
+  assert (HL : L s' = L s ++ map (te sr) (c_tasks c)) by (unfold s'; rewrite L_enqueue, chan_entries_tasks by exact Cne; rewrite Csrc; reflexivity).
+  assert (Hrcase : forall sr0 r0, recv_at x' sr0 r0 -> (sr0 = sr /\ r0 = r') \/ (sr0 <> sr /\ recv_at x sr0 r0)).
+  { intros sr0 r0 H. unfold recv_at in H. cbn [x' recvs] in H. apply nth_error_upd_inv in H.
+    destruct H as [[E (a & Ha & Hb)]|[Hne H]]; [left; subst sr0; rewrite Hr in Ha; inversion Ha; subst a; auto|right; auto]. }
+  assert (Hscase : forall T0 s0, send_at x' T0 s0 -> (T0 = T /\ s0 = s') \/ (T0 <> T /\ send_at x T0 s0)).
+  { intros T0 s0 H. unfold send_at in H. cbn [x' sends] in H. apply nth_error_upd_inv in H.
+    destruct H as [[E (a & Ha & Hb)]|[Hne H]]; [left; subst T0; rewrite Hs in Ha; inversion Ha; subst a; auto|right; auto]. }
+  assert (HsT : send_at x' T s') by (unfold send_at; cbn [x' sends]; rewrite (nth_error_upd_same _ _ _ _ Hs); reflexivity).
+  assert (Hsoth : forall T0 s0, T0 <> T -> send_at x T0 s0 -> send_at x' T0 s0).
+  { intros T0 s0 Hne H. unfold send_at. cbn [x' sends]. rewrite nth_error_upd_other by auto. exact H. }
+  assert (Hm : mono x x').
+  { split.
+    - intros sr0 r0 H. destruct (Hrcase _ _ H) as [[-> ->]|[Hne H1]].
+      + exists r. split; [exact Hr|]. split; [cbn; lia|]. intros t Ht. left. exact Ht.
+      + exists r0. split; [exact H1|]. split; [lia|]. intros t Ht. left. exact Ht.
+    - intros T0 s0 H. destruct (Nat.eq_dec T0 T) as [->|Hne].
+      + unfold send_at in H. rewrite Hs in H. inversion H; subst s0. exists s'. split; [exact HsT|]. split; [cbn; apply hist_ext_refl|cbn; lia].
+      + exists s0. split; [apply Hsoth; assumption|]. split; [apply hist_ext_refl|lia]. }
+  constructor.
+  - intros sr0 r0 H. destruct (Hrcase _ _ H) as [[-> ->]|[Hne H1]]; [apply (i_lw x HI sr r Hr)|apply (i_lw x HI _ _ H1)].
+  - intros sr0 r0 H. destruct (Hrcase _ _ H) as [[-> ->]|[Hne H1]]; [apply (i_rcvb x HI sr r Hr)|apply (i_rcvb x HI _ _ H1)].
+  - intros sr0 r0 H. destruct (Hrcase _ _ H) as [[-> ->]|[Hne H1]]; [apply (i_q x HI sr r Hr)|apply (i_q x HI _ _ H1)].
+  - intros sr0 r0 H. destruct (Hrcase _ _ H) as [[-> ->]|[Hne H1]]; [|apply (i_pend x HI _ _ H1)].
+    split; [exact Pnd'|]. intros T0 c0 Hin0. cbn in Hin0. apply (Pall T0 c0). apply Hsub. exact Hin0.
+  - intros sr0 r0 H t Ht. destruct (Hrcase _ _ H) as [[-> ->]|[Hne H1]].
+    + cbn in Ht. destruct (i_p x HI sr r Hr t Ht) as [(s0 & Hs0 & Hin0)|Hp].
+      * left. destruct (Nat.eq_dec (t_owner t) T) as [E|Hne].
+        -- exists s'. rewrite E. split; [exact HsT|]. rewrite HL. apply in_or_app. left. rewrite E in Hs0. unfold send_at in Hs0. rewrite Hs in Hs0. inversion Hs0; subst. exact Hin0.
+        -- exists s0. split; [apply Hsoth; assumption|exact Hin0].
+      * apply pend_in in Hp. destruct Hp as (c0 & Hc0 & Htc).
+        destruct (Nat.eq_dec (t_owner t) T) as [E|Hne].
+        -- left. exists s'. rewrite E. split; [exact HsT|]. rewrite HL. apply in_or_app. right.
+           rewrite E in Hc0. rewrite (nodup_key_unique _ _ _ _ Pnd Hc0 Hin) in Htc. apply in_map. exact Htc.
+        -- right. apply pend_in. exists c0. split; [cbn; apply Hoth; assumption|exact Htc].
+    + destruct (i_p x HI _ _ H1 t Ht) as [(s0 & Hs0 & Hin0)|Hp]; [|right; exact Hp].
+      left. destruct (Nat.eq_dec (t_owner t) T) as [E|Hne'].
+      * exists s'. rewrite E. split; [exact HsT|]. rewrite HL. apply in_or_app. left. rewrite E in Hs0. unfold send_at in Hs0. rewrite Hs in Hs0. inversion Hs0; subst. exact Hin0.
+      * exists s0. split; [apply Hsoth; assumption|exact Hin0].
+  - intros T0 s0 H Hcf. destruct (Hscase _ _ H) as [[-> ->]|[Hne H1]]; [cbn in Hcf; rewrite Hc in Hcf; discriminate|apply (i_nc x HI _ _ H1 Hcf)].
+  - intros sr0 r0 T0 s0 Hr0 Hs0 l1 e l2 HLs He t Ht Ho Hlt.
+    assert (Hrr : exists r1, recv_at x sr0 r1 /\ r_rcv r1 = r_rcv r0 /\ r_high r1 = r_high r0).
+    { destruct (Hrcase _ _ Hr0) as [[-> ->]|[Hne H1]]; [exists r; auto|exists r0; auto]. }
+    destruct Hrr as (r1 & Hr1 & Ercv & _). rewrite <- Ercv in Ht.
+    destruct (Hscase _ _ Hs0) as [[-> ->]|[Hne H1]]; [|apply (i_before x HI sr0 r1 T0 s0 Hr1 H1 l1 e l2 HLs He t Ht Ho Hlt)].
+    rewrite HL in HLs. symmetry in HLs. destruct (app_split_cases l1 e l2 _ _ HLs) as [(l2' & E1 & E2)|(l1' & E1 & E2)].
+    + apply (i_before x HI sr0 r1 T s Hr1 Hs l1 e l2' E1 He t Ht Ho Hlt).
+    + (* e is one of the tasks just handed off *)
+      rewrite E1. apply in_or_app.
+      assert (Hes : In e (map (te sr) (c_tasks c))) by (rewrite E2; apply in_or_app; right; left; reflexivity).
+      apply in_map_iff in Hes. destruct Hes as (t' & Et' & Ht').
+      assert (sr0 = sr) by (rewrite <- He, <- Et'; reflexivity). subst sr0.
+      assert (r1 = r) by (unfold recv_at in Hr1; congruence). subst r1.
+      destruct (i_p x HI sr r Hr t Ht) as [(s0 & Hs0' & Hin0)|Hp].
+      * left. rewrite Ho in Hs0'. unfold send_at in Hs0'. rewrite Hs in Hs0'. inversion Hs0'; subst. exact Hin0.
+      * right. apply pend_in in Hp. destruct Hp as (c0 & Hc0 & Htc). rewrite Ho in Hc0.
+        rewrite (nodup_key_unique _ _ _ _ Pnd Hc0 Hin) in Htc.
+        (* position of t' in the group *)
+        apply map_eq_app in E2. destruct E2 as (a & b & Eab & Ea & Eb). destruct b as [|t'' b]; [discriminate|]. cbn [map] in Eb. inversion Eb as [[Ee Eb']].
+        rewrite <- Ea. apply in_map. apply (incr_before (c_tasks c) lo a t'' b t Cincr Eab Htc).
+        rewrite <- Et' in Hlt. cbn in Hlt. assert (t_id t'' = t_id t') by (rewrite <- Et' in Ee; inversion Ee; reflexivity). lia.
+  - intros sr0 r0 T0 s0 Hr0 Hs0 e Hine He.
+    assert (Hrr : exists r1, recv_at x sr0 r1 /\ r_rcv r1 = r_rcv r0 /\ r_high r1 = r_high r0).
+    { destruct (Hrcase _ _ Hr0) as [[-> ->]|[Hne H1]]; [exists r; auto|exists r0; auto]. }
+    destruct Hrr as (r1 & Hr1 & Ercv & Ehigh). rewrite <- Ehigh.
+    destruct (Hscase _ _ Hs0) as [[-> ->]|[Hne H1]]; [|apply (i_bnd x HI sr0 r1 T0 s0 Hr1 H1 e Hine He)].
+    rewrite HL in Hine. apply in_app_or in Hine. destruct Hine as [Hold|Hnew]; [apply (i_bnd x HI sr0 r1 T s Hr1 Hs e Hold He)|].
+    apply in_map_iff in Hnew. destruct Hnew as (t' & Et' & Ht').
+    assert (sr0 = sr) by (rewrite <- He, <- Et'; reflexivity). subst sr0.
+    assert (r1 = r) by (unfold recv_at in Hr1; congruence). subst r1. rewrite <- Et'. cbn.
+    destruct (Call t' Ht') as (_ & Hrcv' & _). pose proof (i_rcvb x HI sr r Hr t' Hrcv'). lia.
+  - intros T0 s0 H. destruct (Hscase _ _ H) as [[-> ->]|[Hne H1]]; [exact (i_ring x HI T s Hs)|apply (i_ring x HI _ _ H1)].
+  - intros sr0 r0 H T0 v Hg. apply (good_mono x x' _ _ _ Hm). destruct (Hrcase _ _ H) as [[-> ->]|[Hne H1]]; [apply (i_gmap x HI sr r Hr T0 v Hg)|apply (i_gmap x HI _ _ H1 T0 v Hg)].
+  - intros sr0 r0 H T0 v Hg. apply (good_mono x x' _ _ _ Hm). destruct (Hrcase _ _ H) as [[-> ->]|[Hne H1]]; [apply (i_gackq x HI sr r Hr T0 v Hg)|apply (i_gackq x HI _ _ H1 T0 v Hg)].
+  - intros T0 s0 fl H Hf sr0 a Hin0. apply (good_mono x x' _ _ _ Hm). destruct (Hscase _ _ H) as [[-> ->]|[Hne H1]]; [apply (i_gflight x HI T s fl Hs Hf sr0 a Hin0)|apply (i_gflight x HI _ _ fl H1 Hf sr0 a Hin0)].
+  - intros T0 s0 H sr0 a Hin0. apply (good_mono x x' _ _ _ Hm). destruct (Hscase _ _ H) as [[-> ->]|[Hne H1]]; [apply (i_gprev x HI T s Hs sr0 a Hin0)|apply (i_gprev x HI _ _ H1 sr0 a Hin0)].
+  - intros sr0 r0 H. destruct (Hrcase _ _ H) as [[-> ->]|[Hne H1]]; [apply (i_reg x HI sr r Hr)|apply (i_reg x HI _ _ H1)].
+Qed.
+
+(* ---------- the receiver reads a batch ---------- *)
+Lemma try_enqueue_cases c s : try_enqueue c s = s \/ (s_conn s = true /\ try_enqueue c s = enqueue c s).
+Proof. unfold try_enqueue. destruct (s_conn s); cbn [andb]; [destruct (has_room s); [right; split; reflexivity|left; reflexivity]|left; reflexivity]. Qed.
+
+Lemma inv_read_wm x sr r high q :
+  Inv x -> recv_at x sr r -> r_pending r = [] -> r_inq r = ([], high) :: q ->
+  Inv {| recvs := upd (recvs x) sr (fun _ => r_set_inq q (r_set_lastwm high (r_set_high high r)));
+         sends := broadcast {| c_src := sr; c_tasks := []; c_high := high |} (sends x) |}.
+Proof.
+  intros HI Hr Hpend Hinq.
+  set (c := {| c_src := sr; c_tasks := []; c_high := high |}).
+  set (r' := r_set_inq q (r_set_lastwm high (r_set_high high r))).
+  set (x' := {| recvs := upd (recvs x) sr (fun _ => r'); sends := broadcast c (sends x) |}).
+  pose proof (i_q x HI sr r Hr) as Hq. rewrite Hinq in Hq. cbn [chain] in Hq. destruct Hq as (_ & _ & Hle & Hq).
+  assert (Hrcase : forall sr0 r0, recv_at x' sr0 r0 -> (sr0 = sr /\ r0 = r') \/ (sr0 <> sr /\ recv_at x sr0 r0)).
+  { intros sr0 r0 H. unfold recv_at in H. cbn [x' recvs] in H. apply nth_error_upd_inv in H.
+    destruct H as [[E (a & Ha & Hb)]|[Hne H]]; [left; subst sr0; auto|right; auto]. }
+  assert (Hscase : forall T0 s0, send_at x' T0 s0 -> exists s, send_at x T0 s /\ s0 = try_enqueue c s).
+  { intros T0 s0 H. unfold send_at in H. cbn [x' sends] in H. unfold broadcast in H. rewrite nth_error_map in H.
+    destruct (nth_error (sends x) T0) as [s|] eqn:E; [|discriminate]. cbn in H. inversion H. exists s. auto. }
+  assert (Hsfwd : forall T0 s, send_at x T0 s -> send_at x' T0 (try_enqueue c s)).
+  { intros T0 s H. unfold send_at. cbn [x' sends]. unfold broadcast. rewrite nth_error_map. unfold send_at in H. rewrite H. reflexivity. }
+  assert (HLsub : forall s e, In e (L s) -> In e (L (try_enqueue c s))).
+  { intros s e H. destruct (try_enqueue_cases c s) as [E|[_ E]]; rewrite E; [exact H|]. rewrite L_enqueue. apply in_or_app. left. exact H. }
+  assert (Hrold : forall sr0 r0, recv_at x' sr0 r0 -> exists r1, recv_at x sr0 r1 /\ r_rcv r1 = r_rcv r0 /\ r_high r1 <= r_high r0 /\ r_map r1 = r_map r0 /\ r_ackq r1 = r_ackq r0).
+  { intros sr0 r0 H. destruct (Hrcase _ _ H) as [[-> ->]|[Hne H1]]; [exists r; cbn; repeat split; auto|exists r0; repeat split; auto; lia]. }
+  assert (Hm : mono x x').
+  { split.
+    - intros sr0 r0 H. destruct (Hrold _ _ H) as (r1 & H1 & E1 & E2 & _). exists r1. split; [exact H1|]. split; [exact E2|]. intros t Ht. left. rewrite E1. exact Ht.
+    - intros T0 s H. exists (try_enqueue c s). split; [apply Hsfwd; exact H|].
+      destruct (try_enqueue_cases c s) as [E|[_ E]]; rewrite E; cbn; split; try apply hist_ext_refl; lia. }
+  constructor.
+  - intros sr0 r0 H. destruct (Hrcase _ _ H) as [[-> ->]|[Hne H1]]; [cbn; lia|apply (i_lw x HI _ _ H1)].
+  - intros sr0 r0 H t Ht. destruct (Hrcase _ _ H) as [[-> ->]|[Hne H1]]; [cbn in *; pose proof (i_rcvb x HI sr r Hr t Ht); lia|apply (i_rcvb x HI _ _ H1 t Ht)].
+  - intros sr0 r0 H. destruct (Hrcase _ _ H) as [[-> ->]|[Hne H1]]; [cbn; exact Hq|apply (i_q x HI _ _ H1)].
+  - intros sr0 r0 H. destruct (Hrcase _ _ H) as [[-> ->]|[Hne H1]]; [|apply (i_pend x HI _ _ H1)].
+    unfold pend_ok. cbn. rewrite Hpend. split; [constructor|]. intros T0 c0 [].
+  - intros sr0 r0 H t Ht. destruct (Hrold _ _ H) as (r1 & H1 & E1 & _). rewrite <- E1 in Ht.
+    destruct (i_p x HI sr0 r1 H1 t Ht) as [(s0 & Hs0 & Hin0)|Hp].
+    + left. exists (try_enqueue c s0). split; [apply Hsfwd; exact Hs0|apply HLsub; exact Hin0].
+    + destruct (Hrcase _ _ H) as [[-> ->]|[Hne H2]].
+      * assert (r1 = r) by (unfold recv_at in *; congruence). subst r1. exfalso. apply pend_in in Hp. destruct Hp as (c0 & Hc0 & _). rewrite Hpend in Hc0. destruct Hc0.
+      * assert (r1 = r0) by (unfold recv_at in *; congruence). subst r1. right. exact Hp.
+  - intros T0 s0 H Hcf. destruct (Hscase _ _ H) as (s & Hs & ->).
+    destruct (try_enqueue_cases c s) as [E|[Hc E]]; rewrite E in *; [apply (i_nc x HI _ _ Hs Hcf)|cbn in Hcf; congruence].
+  - intros sr0 r0 T0 s0 Hr0 Hs0 l1 e l2 HLs He t Ht Ho Hlt.
+    destruct (Hrold _ _ Hr0) as (r1 & Hr1 & Ercv & _). rewrite <- Ercv in Ht.
+    destruct (Hscase _ _ Hs0) as (s & Hs & ->).
+    destruct (try_enqueue_cases c s) as [E|[Hc E]]; rewrite E in HLs; [apply (i_before x HI sr0 r1 T0 s Hr1 Hs l1 e l2 HLs He t Ht Ho Hlt)|].
+    rewrite L_enqueue in HLs. symmetry in HLs. destruct (app_split_cases l1 e l2 _ _ HLs) as [(l2' & E1 & E2)|(l1' & E1 & E2)].
+    + apply (i_before x HI sr0 r1 T0 s Hr1 Hs l1 e l2' E1 He t Ht Ho Hlt).
+    + (* e is the watermark just broadcast: every task received so far has been handed off *)
+      unfold chan_entries in E2. cbn in E2. destruct l1' as [|y l1']; cbn in E2; [|destruct l1'; discriminate].
+      inversion E2; subst e. cbn in He. subst sr0. assert (r1 = r) by (unfold recv_at in *; congruence). subst r1.
+      rewrite E1, app_nil_r. destruct (i_p x HI sr r Hr t Ht) as [(s1 & Hs1 & Hin1)|Hp].
+      * rewrite Ho in Hs1. assert (s1 = s) by (unfold send_at in *; congruence). subst s1. exact Hin1.
+      * exfalso. apply pend_in in Hp. destruct Hp as (c0 & Hc0 & _). rewrite Hpend in Hc0. destruct Hc0.
+  - intros sr0 r0 T0 s0 Hr0 Hs0 e Hine He.
+    destruct (Hrold _ _ Hr0) as (r1 & Hr1 & _ & Ehigh & _). destruct (Hscase _ _ Hs0) as (s & Hs & ->).
+    destruct (try_enqueue_cases c s) as [E|[Hc E]]; rewrite E in Hine.
+    + pose proof (i_bnd x HI sr0 r1 T0 s Hr1 Hs e Hine He). lia.
+    + rewrite L_enqueue in Hine. apply in_app_or in Hine. destruct Hine as [Hold|Hnew]; [pose proof (i_bnd x HI sr0 r1 T0 s Hr1 Hs e Hold He); lia|].
+      unfold chan_entries in Hnew. cbn in Hnew. destruct Hnew as [<-|[]]. cbn in He. subst sr0.
+      destruct (Hrcase _ _ Hr0) as [[_ ->]|[Hne _]]; [cbn; lia|contradiction].
+  - intros T0 s0 H. destruct (Hscase _ _ H) as (s & Hs & ->).
+    destruct (try_enqueue_cases c s) as [E|[Hc E]]; rewrite E; exact (i_ring x HI T0 s Hs).
+  - intros sr0 r0 H T0 v Hg. destruct (Hrold _ _ H) as (r1 & H1 & _ & _ & Emap & _). rewrite <- Emap in Hg.
+    apply (good_mono x x' _ _ _ Hm). apply (i_gmap x HI sr0 r1 H1 T0 v Hg).
+  - intros sr0 r0 H T0 v Hin0. destruct (Hrold _ _ H) as (r1 & H1 & _ & _ & _ & Eackq). rewrite <- Eackq in Hin0.
+    apply (good_mono x x' _ _ _ Hm). apply (i_gackq x HI sr0 r1 H1 T0 v Hin0).
+  - intros T0 s0 fl H Hf sr0 a Hin0. destruct (Hscase _ _ H) as (s & Hs & ->). apply (good_mono x x' _ _ _ Hm).
+    apply (i_gflight x HI T0 s fl Hs); [|exact Hin0]. destruct (try_enqueue_cases c s) as [E|[Hc E]]; rewrite E in Hf; exact Hf.
+  - intros T0 s0 H sr0 a Hin0. destruct (Hscase _ _ H) as (s & Hs & ->). apply (good_mono x x' _ _ _ Hm).
+    apply (i_gprev x HI T0 s Hs). destruct (try_enqueue_cases c s) as [E|[Hc E]]; rewrite E in Hin0; exact Hin0.
+  - intros sr0 r0 H t Ht. destruct (Hrold _ _ H) as (r1 & H1 & Ercv & _ & Emap & _). rewrite <- Ercv in Ht. rewrite <- Emap. apply (i_reg x HI sr0 r1 H1 t Ht).
+Qed.
+
+Lemma add_to_group_nonempty t gs : Forall (fun g => snd g <> []) gs -> Forall (fun g => snd g <> []) (add_to_group t gs).
+Proof.
+  induction gs as [|[T l] gs IH]; intros H; cbn [add_to_group].
+  - constructor; [cbn; discriminate|constructor].
+  - inversion H; subst. destruct (Nat.eqb T (t_owner t)).
+    + constructor; [cbn; destruct l; discriminate|assumption].
+    + constructor; [assumption|apply IH; assumption].
+Qed.
+
+Lemma group_nonempty ts T l : In (T, l) (group ts) -> l <> [].
+Proof.
+  assert (H : forall gs, Forall (fun g => snd g <> []) gs -> Forall (fun g => snd g <> []) (fold_left (fun gs t => add_to_group t gs) ts gs)).
+  { induction ts as [|t ts IH]; intros gs Hg; cbn [fold_left]; [exact Hg|]. apply IH. apply add_to_group_nonempty. exact Hg. }
+  intros Hin. specialize (H [] ltac:(constructor)). rewrite Forall_forall in H. apply (H (T, l) Hin).
+Qed.
+
+Lemma gget_in gs : forall T l, NoDup (map fst gs) -> In (T, l) gs -> gget T gs = l.
+Proof.
+  induction gs as [|[T0 l0] gs IH]; intros T l Hnd Hin; [destruct Hin|]. cbn [map fst] in Hnd. inversion Hnd as [|? ? Hnin Hnd']; subst.
+  cbn [gget]. destruct Hin as [E|Hin].
+  - inversion E; subst. rewrite Nat.eqb_refl. reflexivity.
+  - destruct (Nat.eqb_spec T T0) as [->|Hne]; [|apply IH; assumption].
+    exfalso. apply Hnin. apply in_map_iff. exists (T0, l). auto.
+Qed.
+
+Lemma incr_filter f ts : forall lo, incr lo ts -> incr lo (filter f ts).
+Proof.
+  induction ts as [|t ts IH]; intros lo H; [exact I|]. cbn [incr filter] in *. destruct H as [H1 H2].
+  destruct (f t); [cbn [incr]; split; [exact H1|apply IH; exact H2]|apply (incr_weaken _ (t_id t + 1)); [lia|apply IH; exact H2]].
+Qed.
+
+Lemma group_entry ts T l : In (T, l) (group ts) -> l = owned_by T ts.
+Proof.
+  intros Hin. destruct (group_spec ts) as [Hnd Hg]. rewrite <- (Hg T). symmetry. apply gget_in; assumption.
+Qed.
+
+Lemma owned_by_in T ts t : In t (owned_by T ts) <-> In t ts /\ t_owner t = T.
+Proof. unfold owned_by. rewrite filter_In. split; intros [H1 H2]; split; auto; [apply Nat.eqb_eq; exact H2|apply Nat.eqb_eq; exact H2]. Qed.
+
+Lemma group_has_owner ts t : In t ts -> In (t_owner t, owned_by (t_owner t) ts) (group ts).
+Proof.
+  intros Hin. destruct (group_spec ts) as [Hnd Hg].
+  assert (Hne : gget (t_owner t) (group ts) <> []).
+  { rewrite Hg. intros E. assert (In t (owned_by (t_owner t) ts)) by (apply owned_by_in; auto). rewrite E in H. destruct H. }
+  assert (Hex : forall gs T, gget T gs <> [] -> In (T, gget T gs) gs).
+  { induction gs as [|[T0 l0] gs IH]; intros T1 H; cbn [gget] in *; [contradiction|].
+    destruct (Nat.eqb T1 T0) eqn:E1; [apply Nat.eqb_eq in E1; subst T1; left; reflexivity|right; apply IH; exact H]. }
+  rewrite <- Hg. apply Hex. exact Hne.
+Qed.
+
+Lemma first_id_lower lo l : l <> [] -> incr lo l -> forall t, In t l -> first_id l <= t_id t.
+Proof.
+  destruct l as [|t0 l]; [contradiction|]. intros _ [H1 H2] t [->|Hin]; cbn [first_id]; [lia|]. pose proof (incr_lower _ _ _ H2 Hin). lia.
+Qed.
+
+Lemma register_cases gs : forall m T v, aget T (register gs m) = Some v ->
+  aget T m = Some v \/ (aget T m = None /\ exists ts, In (T, ts) gs /\ v = first_id ts).
+Proof.
+  intros m T v H. destruct (aget T m) as [v0|] eqn:E.
+  - left. rewrite (register_keeps gs m T v0 E) in H. exact H.
+  - right. split; [reflexivity|]. apply (register_new gs m T v E H).
+Qed.
+
+Lemma inv_read_tasks x sr r t0 ts0 high q :
+  Inv x -> recv_at x sr r -> r_pending r = [] -> r_inq r = (t0 :: ts0, high) :: q ->
+  let ts := t0 :: ts0 in
+  let gs := group ts in
+  let pend := map (fun g => (fst g, {| c_src := sr; c_tasks := snd g; c_high := last_id (snd g) + 1 |})) gs in
+  Inv (set_recv x sr (fun _ => r_set_rcv (r_rcv r ++ ts) (r_set_inq q (r_set_pending pend (r_set_map (register gs (r_map r)) (r_set_high high r)))))).
+Proof.
+  intros HI Hr Hpend Hinq ts gs pend0.
+  set (r' := r_set_rcv (r_rcv r ++ ts) (r_set_inq q (r_set_pending pend0 (r_set_map (register gs (r_map r)) (r_set_high high r))))).
+  set (x' := set_recv x sr (fun _ => r')).
+  pose proof (i_q x HI sr r Hr) as Hq. rewrite Hinq in Hq. cbn [chain] in Hq. fold ts in Hq. destruct Hq as (Hincr & Hlt & Hle & Hq).
+  destruct (group_spec ts) as [Gnd Gg]. fold gs in Gnd, Gg.
+  assert (Hrcase : forall sr0 r0, recv_at x' sr0 r0 -> (sr0 = sr /\ r0 = r') \/ (sr0 <> sr /\ recv_at x sr0 r0)).
+  { intros sr0 r0 H. apply recv_at_set_recv in H. destruct H as [[E (r1 & _ & E2)]|[Hne H]]; [left; auto|right; auto]. }
+  assert (Hsends : forall T s, send_at x' T s <-> send_at x T s) by (intros; unfold send_at; cbn; reflexivity).
+  assert (Hnew : forall t, In t ts -> r_high r <= t_id t) by (intros t Ht; apply (incr_lower _ _ _ Hincr Ht)).
+  assert (Hm : mono x x').
+  { split.
+    - intros sr0 r0 H. destruct (Hrcase _ _ H) as [[-> ->]|[Hne H1]].
+      + exists r. split; [exact Hr|]. split; [cbn; lia|]. intros t Ht. cbn in Ht. apply in_app_or in Ht. destruct Ht as [Ht|Ht]; [left; exact Ht|right; apply Hnew; exact Ht].
+      + exists r0. split; [exact H1|]. split; [lia|]. intros t Ht. left. exact Ht.
+    - intros T s H. exists s. split; [apply Hsends; exact H|]. split; [apply hist_ext_refl|lia]. }
+  assert (Hpend_in : forall T c0, In (T, c0) pend0 -> exists l, In (T, l) gs /\ c0 = {| c_src := sr; c_tasks := l; c_high := last_id l + 1 |}).
+  { intros T c0 H. unfold pend0 in H. apply in_map_iff in H. destruct H as ([T1 l] & E & Hin). cbn in E. inversion E; subst. exists l. auto. }
+  constructor.
+  - intros sr0 r0 H. destruct (Hrcase _ _ H) as [[-> ->]|[Hne H1]]; [cbn; pose proof (i_lw x HI sr r Hr); lia|apply (i_lw x HI _ _ H1)].
+  - intros sr0 r0 H t Ht. destruct (Hrcase _ _ H) as [[-> ->]|[Hne H1]]; [|apply (i_rcvb x HI _ _ H1 t Ht)].
+    cbn in *. apply in_app_or in Ht. destruct Ht as [Ht|Ht]; [pose proof (i_rcvb x HI sr r Hr t Ht); lia|apply Hlt; exact Ht].
+  - intros sr0 r0 H. destruct (Hrcase _ _ H) as [[-> ->]|[Hne H1]]; [cbn; exact Hq|apply (i_q x HI _ _ H1)].
+  - intros sr0 r0 H. destruct (Hrcase _ _ H) as [[-> ->]|[Hne H1]]; [|apply (i_pend x HI _ _ H1)].
+    split.
+    + cbn. unfold pend0. rewrite map_map. cbn. exact Gnd.
+    + intros T c0 Hin. cbn in Hin. destruct (Hpend_in _ _ Hin) as (l & Hl & ->). cbn.
+      pose proof (group_entry ts T l Hl) as El. split; [reflexivity|]. split; [apply (group_nonempty ts T l Hl)|]. split.
+      * exists (r_high r). rewrite El. apply incr_filter. exact Hincr.
+      * intros t Ht. rewrite El in Ht. apply owned_by_in in Ht. destruct Ht as [Ht Ho]. split; [exact Ho|]. split; [apply in_or_app; right; exact Ht|].
+        pose proof (i_lw x HI sr r Hr). pose proof (Hnew t Ht). lia.
+  - intros sr0 r0 H t Ht. destruct (Hrcase _ _ H) as [[-> ->]|[Hne H1]].
+    + cbn in Ht. apply in_app_or in Ht. destruct Ht as [Ht|Ht].
+      * destruct (i_p x HI sr r Hr t Ht) as [(s0 & Hs0 & Hin0)|Hp]; [left; exists s0; split; [apply Hsends; exact Hs0|exact Hin0]|].
+        exfalso. apply pend_in in Hp. destruct Hp as (c0 & Hc0 & _). rewrite Hpend in Hc0. destruct Hc0.
+      * right. apply pend_in. exists {| c_src := sr; c_tasks := owned_by (t_owner t) ts; c_high := last_id (owned_by (t_owner t) ts) + 1 |}. split.
+        -- cbn [r_pending r' r_set_rcv r_set_inq r_set_pending]. unfold pend0. apply in_map_iff. exists (t_owner t, owned_by (t_owner t) ts). split; [reflexivity|apply group_has_owner; exact Ht].
+        -- cbn [c_tasks]. apply owned_by_in. auto.
+    + destruct (i_p x HI _ _ H1 t Ht) as [(s0 & Hs0 & Hin0)|Hp]; [left; exists s0; split; [apply Hsends; exact Hs0|exact Hin0]|right; exact Hp].
+  - intros T s H Hc. apply (i_nc x HI T s); [apply Hsends; exact H|exact Hc].
+  - intros sr0 r0 T s Hr0 Hs0 l1 e l2 HLs He t Ht Ho Hlt0. apply Hsends in Hs0.
+    destruct (Hrcase _ _ Hr0) as [[-> ->]|[Hne H1]]; [|apply (i_before x HI sr0 r0 T s H1 Hs0 l1 e l2 HLs He t Ht Ho Hlt0)].
+    cbn in Ht. apply in_app_or in Ht. destruct Ht as [Ht|Ht]; [apply (i_before x HI sr r T s Hr Hs0 l1 e l2 HLs He t Ht Ho Hlt0)|].
+    exfalso. assert (Hine : In e (L s)) by (rewrite HLs; apply in_or_app; right; left; reflexivity).
+    pose proof (i_bnd x HI sr r T s Hr Hs0 e Hine He). pose proof (Hnew t Ht). lia.
+  - intros sr0 r0 T s Hr0 Hs0 e Hine He. apply Hsends in Hs0.
+    destruct (Hrcase _ _ Hr0) as [[-> ->]|[Hne H1]]; [cbn; pose proof (i_bnd x HI sr r T s Hr Hs0 e Hine He); lia|apply (i_bnd x HI sr0 r0 T s H1 Hs0 e Hine He)].
+  - intros T s H. apply (i_ring x HI T s). apply Hsends. exact H.
+  - intros sr0 r0 H T v Hg. destruct (Hrcase _ _ H) as [[-> ->]|[Hne H1]]; [|apply (good_mono x x' _ _ _ Hm); apply (i_gmap x HI _ _ H1 T v Hg)].
+    cbn in Hg. destruct (register_cases gs _ _ _ Hg) as [Hold|(Hnone & l & Hl & ->)]; [apply (good_mono x x' _ _ _ Hm); apply (i_gmap x HI sr r Hr T v Hold)|].
+    (* a target registered by this batch: nothing received before was for it, and the batch's own tasks are not below its first id *)
+    pose proof (group_entry ts T l Hl) as El. pose proof (group_nonempty ts T l Hl) as Lne.
+    assert (Hlincr : incr (r_high r) l) by (rewrite El; apply incr_filter; exact Hincr).
+    intros r0 Hr0. assert (r0 = r') by (destruct (Hrcase _ _ Hr0) as [[_ E]|[Hne _]]; [exact E|contradiction]). subst r0. split.
+    + cbn. destruct l as [|tl l']; [contradiction|]. cbn [first_id]. assert (In tl ts) by (apply (proj1 (owned_by_in T ts tl)); rewrite <- El; left; reflexivity). pose proof (Hlt tl H0). lia.
+    + intros t Ht Ho Hlt0. exfalso. cbn in Ht. apply in_app_or in Ht. destruct Ht as [Ht|Ht].
+      * destruct (i_reg x HI sr r Hr t Ht) as (v0 & Hv0). rewrite Ho in Hv0. congruence.
+      * assert (In t l) by (rewrite El; apply owned_by_in; auto). pose proof (first_id_lower _ l Lne Hlincr t H0). lia.
+  - intros sr0 r0 H T v Hin0. apply (good_mono x x' _ _ _ Hm). destruct (Hrcase _ _ H) as [[-> ->]|[Hne H1]]; [apply (i_gackq x HI sr r Hr T v Hin0)|apply (i_gackq x HI _ _ H1 T v Hin0)].
+  - intros T s fl H Hf sr0 a Hin0. apply (good_mono x x' _ _ _ Hm). apply (i_gflight x HI T s fl); [apply Hsends; exact H|exact Hf|exact Hin0].
+  - intros T s H sr0 a Hin0. apply (good_mono x x' _ _ _ Hm). apply (i_gprev x HI T s); [apply Hsends; exact H|exact Hin0].
+  - intros sr0 r0 H t Ht. destruct (Hrcase _ _ H) as [[-> ->]|[Hne H1]]; [|apply (i_reg x HI _ _ H1 t Ht)].
+    cbn in *. apply in_app_or in Ht. destruct Ht as [Ht|Ht].
+    + destruct (i_reg x HI sr r Hr t Ht) as (v0 & Hv0). exists v0. apply register_keeps. exact Hv0.
+    + apply (register_covers gs _ (t_owner t) (owned_by (t_owner t) ts)). apply group_has_owner. exact Ht.
+Qed.
+
+(* ---------- a target connects for the first time ---------- *)
+Lemma replay_from_spec rs : forall i s,
+  let s' := replay_from i rs s in
+  s_conn s' = s_conn s /\ s_hist s' = s_hist s /\ s_ring s' = s_ring s /\ s_prev s' = s_prev s /\ s_ackflight s' = s_ackflight s /\
+  s_ackin s' = s_ackin s /\ s_next s' = s_next s /\ s_start s' = s_start s /\ s_acked s' = s_acked s /\
+  exists extra, s_chan s' = s_chan s ++ extra /\
+    forall c, In c extra -> c_tasks c = [] /\ exists k r, nth_error rs k = Some r /\ c_src c = (i + k)%nat /\ c_high c = r_lastwm r.
+Proof.
+  induction rs as [|r rs IH]; intros i s; cbn [replay_from].
+  - repeat split; try reflexivity. exists []. rewrite app_nil_r. split; [reflexivity|intros c []].
+  - set (s1 := if r_lastwm r =? 0 then s else try_enqueue {| c_src := i; c_tasks := []; c_high := r_lastwm r |} s).
+    assert (H1 : s_conn s1 = s_conn s /\ s_hist s1 = s_hist s /\ s_ring s1 = s_ring s /\ s_prev s1 = s_prev s /\ s_ackflight s1 = s_ackflight s /\
+                 s_ackin s1 = s_ackin s /\ s_next s1 = s_next s /\ s_start s1 = s_start s /\ s_acked s1 = s_acked s /\
+                 exists extra, s_chan s1 = s_chan s ++ extra /\ forall c, In c extra -> c = {| c_src := i; c_tasks := []; c_high := r_lastwm r |}).
+    { unfold s1. destruct (r_lastwm r =? 0).
+      - repeat split; try reflexivity. exists []. rewrite app_nil_r. split; [reflexivity|intros c []].
+      - destruct (try_enqueue_cases {| c_src := i; c_tasks := []; c_high := r_lastwm r |} s) as [E|[_ E]]; rewrite E.
+        + repeat split; try reflexivity. exists []. rewrite app_nil_r. split; [reflexivity|intros c []].
+        + cbn. repeat split; try reflexivity. exists [{| c_src := i; c_tasks := []; c_high := r_lastwm r |}]. split; [reflexivity|]. intros c [<-|[]]. reflexivity. }
+    destruct H1 as (A1 & A2 & A3 & A4 & A5 & A6 & A7 & A8 & A9 & ex1 & Ech1 & Hex1).
+    destruct (IH (S i) s1) as (B1 & B2 & B3 & B4 & B5 & B6 & B7 & B8 & B9 & ex2 & Ech2 & Hex2).
+    repeat split; try congruence. exists (ex1 ++ ex2). split; [rewrite Ech2, Ech1, app_assoc; reflexivity|].
+    intros c Hc. apply in_app_or in Hc. destruct Hc as [Hc|Hc].
+    + rewrite (Hex1 c Hc). cbn. split; [reflexivity|]. exists 0%nat, r. cbn. repeat split; lia.
+    + destruct (Hex2 c Hc) as (E1 & k & r1 & Hk & Hsrc & Hh). split; [exact E1|]. exists (S k), r1. cbn. repeat split; [exact Hk|lia|exact Hh].
+Qed.
+
+Lemma inv_connect x T : Inv x -> wf_act x (AConnect T) -> Inv (fst (apply_act true x (AConnect T))).
+Proof.
+  intros HI Hwf. cbn [apply_act]. destruct (nth_error (sends x) T) as [s|] eqn:Hs; [|exact HI]. cbn [fst].
+  set (s0 := {| s_conn := true; s_stalled := false; s_chan := []; s_inflight := None; s_next := 0; s_start := 0; s_ring := [];
+                s_prev := []; s_lastwm := 0; s_ackin := []; s_ackflight := None; s_hist := []; s_acked := 0 |}).
+  set (s' := replay_from 0 (recvs x) s0). set (x' := set_send x T (fun _ => s')).
+  pose proof (Hwf s Hs) as Hnc. destruct (i_nc x HI T s Hs Hnc) as (N1 & N2 & N3 & N4 & N5 & N6).
+  destruct (replay_from_spec (recvs x) 0 s0) as (B1 & B2 & B3 & B4 & B5 & B6 & B7 & B8 & B9 & extra & Ech & Hex). fold s' in B1, B2, B3, B4, B5, B6, B7, B8, B9, Ech.
+  cbn in B1, B2, B3, B4, B5, B6, B7, B8, B9, Ech.
+  assert (HLs : L s = []) by (unfold L; rewrite N1, N2; reflexivity).
+  assert (HL' : L s' = flat_map chan_entries extra) by (unfold L; rewrite B2, Ech; reflexivity).
+  assert (Hrecv : forall sr r, recv_at x' sr r <-> recv_at x sr r) by (intros; unfold recv_at; cbn; reflexivity).
+  assert (Hscase : forall T0 s1, send_at x' T0 s1 -> (T0 = T /\ s1 = s') \/ (T0 <> T /\ send_at x T0 s1)).
+  { intros T0 s1 H. apply send_at_set_send in H. destruct H as [[E (s2 & _ & E2)]|[Hne H]]; [left; auto|right; auto]. }
+  assert (HsT : send_at x' T s') by (unfold send_at; cbn; exact (nth_error_upd_same (sends x) T (fun _ => s') s Hs)).
+  assert (Hsoth : forall T0 s1, T0 <> T -> send_at x T0 s1 -> send_at x' T0 s1).
+  { intros T0 s1 Hne H. unfold send_at. cbn. rewrite nth_error_upd_other by auto. exact H. }
+  assert (Hgood : forall sr0 T0 v, Good x sr0 T0 v -> Good x' sr0 T0 v).
+  { intros sr0 T0 v HG r0 Hr0. apply Hrecv in Hr0. destruct (HG r0 Hr0) as [Hv Ht]. split; [exact Hv|].
+    intros t Hin Ho Hlt. destruct (Ht t Hin Ho Hlt) as (s1 & Hs1 & Hc1). destruct (Nat.eq_dec T0 T) as [->|Hne].
+    - exfalso. assert (s1 = s) by (unfold send_at in *; congruence). subst s1. destruct Hc1 as (i & Hi & _). rewrite N1 in Hi. destruct i; discriminate.
+    - exists s1. split; [apply Hsoth; assumption|exact Hc1]. }
+  (* every entry of the fresh channel is a watermark replay of some receiver *)
+  assert (Hentry : forall e, In e (L s') -> e_task e = false /\ exists r, recv_at x (e_src e) r /\ e_val e = r_lastwm r).
+  { intros e He. rewrite HL' in He. apply in_flat_map in He. destruct He as (c & Hc & Hec). destruct (Hex c Hc) as (Ect & k & r & Hk & Hsrc & Hh).
+    unfold chan_entries in Hec. rewrite Ect in Hec. destruct Hec as [<-|[]]. cbn. split; [reflexivity|]. exists r. rewrite Hsrc, Hh. split; [exact Hk|reflexivity]. }
+  constructor.
+  - intros sr r H. apply (i_lw x HI sr r). apply Hrecv. exact H.
+  - intros sr r H. apply (i_rcvb x HI sr r). apply Hrecv. exact H.
+  - intros sr r H. apply (i_q x HI sr r). apply Hrecv. exact H.
+  - intros sr r H. apply (i_pend x HI sr r). apply Hrecv. exact H.
+  - intros sr r H t Ht. apply Hrecv in H. destruct (i_p x HI sr r H t Ht) as [(s1 & Hs1 & Hin1)|Hp]; [|right; exact Hp].
+    destruct (Nat.eq_dec (t_owner t) T) as [E|Hne].
+    + exfalso. rewrite E in Hs1. assert (s1 = s) by (unfold send_at in *; congruence). subst s1. rewrite HLs in Hin1. destruct Hin1.
+    + left. exists s1. split; [apply Hsoth; assumption|exact Hin1].
+  - intros T0 s1 H Hc. destruct (Hscase _ _ H) as [[-> ->]|[Hne H1]]; [congruence|apply (i_nc x HI _ _ H1 Hc)].
+  - intros sr r T0 s1 Hr Hs1 l1 e l2 HLe He t Ht Ho Hlt. apply Hrecv in Hr.
+    destruct (Hscase _ _ Hs1) as [[-> ->]|[Hne H1]]; [|apply (i_before x HI sr r T0 s1 Hr H1 l1 e l2 HLe He t Ht Ho Hlt)].
+    exfalso. assert (Hine : In e (L s')) by (rewrite HLe; apply in_or_app; right; left; reflexivity).
+    destruct (Hentry e Hine) as (_ & r1 & Hr1 & Hv). rewrite He in Hr1. assert (r1 = r) by (unfold recv_at, x' in Hr, Hr1; cbn in Hr, Hr1; congruence). subst r1.
+    destruct (i_p x HI sr r Hr t Ht) as [(s1 & Hs1' & Hin1)|Hp].
+    + rewrite Ho in Hs1'. assert (s1 = s) by (unfold send_at in *; congruence). subst s1. rewrite HLs in Hin1. destruct Hin1.
+    + apply pend_in in Hp. destruct Hp as (c0 & Hc0 & Htc). destruct (i_pend x HI sr r Hr) as [_ Pall].
+      destruct (Pall _ _ Hc0) as (_ & _ & _ & Call). destruct (Call t Htc) as (_ & _ & Hlw). lia.
+  - intros sr r T0 s1 Hr Hs1 e Hine He. apply Hrecv in Hr.
+    destruct (Hscase _ _ Hs1) as [[-> ->]|[Hne H1]]; [|apply (i_bnd x HI sr r T0 s1 Hr H1 e Hine He)].
+    destruct (Hentry e Hine) as (_ & r1 & Hr1 & Hv). rewrite He in Hr1. assert (r1 = r) by (unfold recv_at, x' in Hr, Hr1; cbn in Hr, Hr1; congruence). subst r1.
+    rewrite Hv. apply (i_lw x HI sr r Hr).
+  - intros T0 s1 H. destruct (Hscase _ _ H) as [[-> ->]|[Hne H1]]; [|apply (i_ring x HI _ _ H1)].
+    unfold ring_ok. rewrite B7, B2, B3. cbn. split; [reflexivity|]. intros C. exfalso. apply C. reflexivity.
+  - intros sr r H T0 v Hg. apply Hrecv in H. apply Hgood. apply (i_gmap x HI sr r H T0 v Hg).
+  - intros sr r H T0 v Hin. apply Hrecv in H. apply Hgood. apply (i_gackq x HI sr r H T0 v Hin).
+  - intros T0 s1 fl H Hf sr a Hin. destruct (Hscase _ _ H) as [[-> ->]|[Hne H1]]; [rewrite B5 in Hf; discriminate|].
+    apply Hgood. apply (i_gflight x HI T0 s1 fl H1 Hf sr a Hin).
+  - intros T0 s1 H sr a Hin. destruct (Hscase _ _ H) as [[-> ->]|[Hne H1]]; [rewrite B4 in Hin; destruct Hin|].
+    apply Hgood. apply (i_gprev x HI T0 s1 H1 sr a Hin).
+  - intros sr r H. apply (i_reg x HI sr r). apply Hrecv. exact H.
+Qed.
+
+(* ---------- every fault-free, well-formed action preserves the invariant ---------- *)
+Theorem inv_step x a : Inv x -> wf_act x a -> Inv (fst (apply_act true x a)).
+Proof.
+  intros HI Hwf. destruct a.
+  - apply inv_push; assumption.
+  - (* ARead *)
+    cbn [apply_act]. destruct (nth_error (recvs x) sr) as [r|] eqn:Hr; [|exact HI].
+    destruct (r_pending r) eqn:Hp; [|exact HI]. destruct (r_inq r) as [|[ts high] q] eqn:Hq; [exact HI|].
+    destruct ts as [|t0 ts0]; cbn [fst].
+    + apply (inv_read_wm x sr r high q HI Hr Hp Hq).
+    + apply (inv_read_tasks x sr r t0 ts0 high q HI Hr Hp Hq).
+  - apply inv_handoff; assumption.
+  - apply inv_dequeue; assumption.
+  - apply inv_simple_sender; [assumption|exact I].
+  - apply inv_simple_sender; [assumption|exact I].
+  - apply inv_simple_sender; [assumption|exact I].
+  - apply inv_aggregate; assumption.
+  - apply inv_deliver; assumption.
+  - apply inv_discard; assumption.
+  - apply inv_procack; assumption.
+  - apply inv_connect; assumption.
+  - destruct Hwf.
+  - destruct Hwf.
+  - apply inv_simple_sender; [assumption|exact I].
+  - apply inv_simple_sender; [assumption|exact I].
+Qed.
+
+Fixpoint wf_run (x : st) (l : list act) : Prop :=
+  match l with [] => True | a :: rest => wf_act x a /\ wf_run (fst (apply_act true x a)) rest end.
+
+Theorem inv_run l : forall x, Inv x -> wf_run x l -> Inv (fst (run_acts true x l)).
+Proof.
+  induction l as [|a l IH]; intros x HI Hwf; cbn [run_acts]; [exact HI|]. destruct Hwf as [Hwa Hwr].
+  destruct (apply_act true x a) as [x1 o1] eqn:E. specialize (IH x1). cbn [fst] in Hwr.
+  assert (H1 : Inv x1) by (pose proof (inv_step x a HI Hwa) as H; rewrite E in H; exact H).
+  specialize (IH H1 Hwr). destruct (run_acts true x1 l) as [x2 o2]. exact IH.
+Qed.
+
+(* ---------- safety of every acknowledgement sent to a source ---------- *)
+Lemma only_procack_acks x a o sr v : In o (snd (apply_act true x a)) -> o = OSrc sr v -> exists sr', a = AProcAck sr'.
+Proof.
+  intros Hin ->. destruct a; cbn [apply_act] in Hin; try (eexists; reflexivity);
+    repeat match type of Hin with
+           | In _ (snd (match ?y with _ => _ end)) => destruct y
+           | In _ (snd (if ?y then _ else _)) => destruct y
+           | In _ (snd (let '(_, _) := ?y in _)) => destruct y
+           end; cbn [snd] in Hin; try (destruct Hin as [E|[]]; discriminate); try destruct Hin.
+Qed.
+
+Lemma procack_safe x sr : Inv x ->
+  let '(x1, o) := apply_act true x (AProcAck sr) in forall out, In out o -> unsafe_ack x1 out = false.
+Proof.
+  intros HI. pose proof (inv_procack x sr HI) as HI1. cbn [apply_act] in *.
+  destruct (nth_error (recvs x) sr) as [r|] eqn:Hr; [|intros out []].
+  destruct (r_ackq r) as [|[T v] q] eqn:Hq; [intros out []|].
+  pose proof (process_ack_spec sr T v (r_set_ackq q r)) as Hspec.
+  destruct (process_ack sr T v (r_set_ackq q r)) as [r' o]. cbn [fst] in HI1.
+  destruct Hspec as ([[-> _]|(a & -> & _ & _ & _ & Hall)] & Hrest); [intros out []|].
+  intros out [<-|[]]. cbn [unsafe_ack].
+  set (x1 := set_recv x sr (fun _ => r')) in *.
+  assert (Hr1 : recv_at x1 sr r') by (unfold recv_at; cbn; exact (nth_error_upd_same (recvs x) sr (fun _ => r') r Hr)).
+  unfold recv_at in Hr1. rewrite Hr1.
+  apply not_true_is_false. intros Hex. apply existsb_exists in Hex. destruct Hex as (t & Ht & Hbad).
+  apply andb_prop in Hbad. destruct Hbad as [Hlt Hnc]. apply Z.ltb_lt in Hlt.
+  destruct (i_reg x1 HI1 sr r' Hr1 t Ht) as (v' & Hv'). pose proof (Hall _ _ Hv') as Hle.
+  destruct (i_gmap x1 HI1 sr r' Hr1 (t_owner t) v' Hv' r' Hr1) as [_ Hg].
+  destruct (Hg t Ht eq_refl ltac:(lia)) as (s & Hs & Hc).
+  rewrite (conf_confirmed x1 sr t s Hs Hc) in Hnc. discriminate.
+Qed.
+
+Fixpoint all_safe (x : st) (l : list act) : Prop :=
+  match l with
+  | [] => True
+  | a :: rest => let '(x1, o) := apply_act true x a in (forall out, In out o -> unsafe_ack x1 out = false) /\ all_safe x1 rest
+  end.
+
+(* for every number of sources and targets and EVERY sequence of actions without stream failures in which the sources
+   follow the sender contract: no acknowledgement sent to a source ever covers a task its target has not confirmed *)
+Theorem safe_acks l : forall x, Inv x -> wf_run x l -> all_safe x l.
+Proof.
+  induction l as [|a l IH]; intros x HI Hwf; cbn [all_safe]; [exact I|]. destruct Hwf as [Hwa Hwr].
+  pose proof (inv_step x a HI Hwa) as H1.
+  destruct (apply_act true x a) as [x1 o] eqn:E. cbn [fst] in H1, Hwr. split; [|apply IH; assumption].
+  intros out Hin. destruct out as [T ws high|sr v]; [reflexivity|].
+  destruct (only_procack_acks x a (OSrc sr v) sr v) as (sr' & ->); [rewrite E; exact Hin|reflexivity|].
+  pose proof (procack_safe x sr' HI) as Hp. rewrite E in Hp. apply Hp. exact Hin.
+Qed.
+
+Corollary safe_acks_from_start ns nt l : wf_run (init ns nt) l -> all_safe (init ns nt) l.
+Proof. apply safe_acks. apply inv_init. Qed.
+
+(* the premises are satisfiable: the run of the F1 history (two targets, the slower one acknowledges last) is well formed *)
+Example wf_nonvacuous :
+  wf_run (init 1 2) [AConnect 0; AConnect 1; APush 0 [tk 5 1] 6; ARead 0; AHandoff 0 1; APush 0 [tk 6 0] 7; ARead 0; AHandoff 0 0;
+                     ADequeue 0; ASend 0; AAckIn 0 2; AAggregate 0; ADeliver 0; ADiscard 0; AProcAck 0].
+Proof.
+  cbn. repeat split; try (intros; lia); try (intros s H; inversion H; reflexivity);
+    try (intros t [<-|[]]; cbn; lia);
+    try (unfold recv_at in H; cbn in H; inversion H; subst r; cbn; lia).
+Qed.
